@@ -298,6 +298,7 @@ def check(an: Analysis) -> None:
     ob = an.ob("C18.4", "K1", "traced runs inside ctx.scope(label) (label = function.__name__): ArgumentsTrace.of(*args, **kwargs) recorded before the call, ResultTrace.of(result) after it on the normal path", [f.short for f in traced_fns])
     REC = "haiway.context.access.ctx.record"
     SCOPE = "haiway.context.access.ctx.scope"
+    label_params: dict[str, str] = {}
     for f in traced_fns:
         g = an.cfg(f)
         d = Deps(prog, f)
@@ -310,7 +311,12 @@ def check(an: Analysis) -> None:
         sc = next(i.context_expr for i in scope_with.items if isinstance(i.context_expr, ast.Call) and an.callee(f, i.context_expr) == SCOPE)
         ob.inst(f, sc)
         named = unwrap(d.inline(sc.args[0])) if len(sc.args) == 1 else None
-        by_label = named is not None and d.origins(sc.args[0]) == {"param:label"}
+        oo_lab = d.origins(sc.args[0]) if len(sc.args) == 1 else frozenset()
+        outer_params = [a.arg for a in (f.outer.node.args.posonlyargs + f.outer.node.args.args + f.outer.node.args.kwonlyargs)] if f.outer is not None else []
+        lab_p = next((o[6:] for o in oo_lab if o.startswith("param:") and o[6:] in outer_params and o[6:] != "function"), None) if len(oo_lab) == 1 else None
+        by_label = named is not None and lab_p is not None
+        if by_label and f.outer is not None:
+            label_params[f.outer.qualname] = lab_p  # whatever the factory calls the parameter that names the scope
         by_name = isinstance(named, ast.Attribute) and named.attr == "__name__" and d.origins(named.value) == {"param:function"}
         if not (by_label or by_name):
             ob.fail(f, sc, "the scope is not named by the label (the wrapped function's __name__)")
@@ -348,15 +354,17 @@ def check(an: Analysis) -> None:
     tr = prog.fn("helpers.tracing.traced")
     for c in [c for c in tr.own_nodes() if isinstance(c, ast.Call) and an.callee(tr, c) in (prog.fn("helpers.tracing._traced_sync").qualname, prog.fn("helpers.tracing._traced_async").qualname)]:
         ob.inst(tr, c)
-        lab = next((k.value for k in c.keywords if k.arg == "label"), None)
-        if lab is None and len(c.args) > 1:
-            lab = c.args[1]
+        lp_name = label_params.get(an.callee(tr, c) or "", "label")
+        lab = next((k.value for k in c.keywords if k.arg == lp_name), None)
+        tparams_ = prog.functions[an.callee(tr, c)].param_names() if an.callee(tr, c) in prog.functions else []
+        if lab is None and lp_name in tparams_ and tparams_.index(lp_name) < len(c.args):
+            lab = c.args[tparams_.index(lp_name)]
         lab = Deps(prog, tr).inline(lab) if lab is not None else None
         from ..kinds import added_optional_params_env, reduce_ifexp
 
         lab = reduce_ifexp(lab, added_optional_params_env(tr, {"function"})) if lab is not None else None
         callee_fn = prog.functions.get(an.callee(tr, c) or "")
-        if lab is None and callee_fn is not None and "label" not in callee_fn.param_names() and c.args and is_name(c.args[0], "function"):
+        if lab is None and callee_fn is not None and lp_name not in callee_fn.param_names() and c.args and is_name(c.args[0], "function"):
             continue  # the wrapper factory derives the name from the function itself (checked at its ctx.scope call)
         if not (c.args and is_name(c.args[0], "function") and isinstance(lab, ast.Attribute) and lab.attr == "__name__" and is_name(lab.value, "function")):
             ob.fail(tr, c, "traced does not name the scope after the function")
